@@ -28,23 +28,23 @@ const (
 	KLoadItem // S=local name, S2=original name (rendered "name" if equal, else local="orig")
 	KBlock    // statements
 	// expressions
-	KIdent    // S
-	KLit      // S = literal text
-	KList     // elems
-	KTuple    // elems; S=="bare" renders without parentheses
-	KDict     // DictEntry...
+	KIdent     // S
+	KLit       // S = literal text
+	KList      // elems
+	KTuple     // elems; S=="bare" renders without parentheses
+	KDict      // DictEntry...
 	KDictEntry // [k, v]
-	KUnary    // S=op, [x]
-	KBinary   // S=op, [x, y]
-	KCond     // [then, cond, else]
-	KIndex    // [x, i]
-	KSlice    // [x, lo, hi]
-	KDot      // S=attr, [x]
-	KCall     // [fn, args...]
-	KLambda   // [Params, body]
-	KListComp // [body, clauses...]
-	KDictComp // [DictEntry, clauses...]
-	KParen    // [x]
+	KUnary     // S=op, [x]
+	KBinary    // S=op, [x, y]
+	KCond      // [then, cond, else]
+	KIndex     // [x, i]
+	KSlice     // [x, lo, hi]
+	KDot       // S=attr, [x]
+	KCall      // [fn, args...]
+	KLambda    // [Params, body]
+	KListComp  // [body, clauses...]
+	KDictComp  // [DictEntry, clauses...]
+	KParen     // [x]
 	// call arguments other than plain expressions
 	KArgNamed    // S=name, [e]
 	KArgStar     // [e]
@@ -75,30 +75,30 @@ type Node struct {
 func N(k Kind, s string, c ...*Node) *Node { return &Node{K: k, S: s, C: c} }
 
 // builders
-func id(s string) *Node                { return N(KIdent, s) }
-func lit(s string) *Node               { return N(KLit, s) }
-func list(e ...*Node) *Node            { return N(KList, "", e...) }
-func tuple(e ...*Node) *Node           { return N(KTuple, "", e...) }
-func bare(e ...*Node) *Node            { return N(KTuple, "bare", e...) }
-func dict(e ...*Node) *Node            { return N(KDict, "", e...) }
-func entry(k, v *Node) *Node           { return N(KDictEntry, "", k, v) }
-func un(op string, x *Node) *Node      { return N(KUnary, op, x) }
+func id(s string) *Node                     { return N(KIdent, s) }
+func lit(s string) *Node                    { return N(KLit, s) }
+func list(e ...*Node) *Node                 { return N(KList, "", e...) }
+func tuple(e ...*Node) *Node                { return N(KTuple, "", e...) }
+func bare(e ...*Node) *Node                 { return N(KTuple, "bare", e...) }
+func dict(e ...*Node) *Node                 { return N(KDict, "", e...) }
+func entry(k, v *Node) *Node                { return N(KDictEntry, "", k, v) }
+func un(op string, x *Node) *Node           { return N(KUnary, op, x) }
 func bin(x *Node, op string, y *Node) *Node { return N(KBinary, op, x, y) }
-func cond(t, c, f *Node) *Node         { return N(KCond, "", t, c, f) }
-func index(x, i *Node) *Node           { return N(KIndex, "", x, i) }
-func slice(x, lo, hi *Node) *Node      { return N(KSlice, "", x, lo, hi) }
-func dot(x *Node, a string) *Node      { return N(KDot, a, x) }
-func call(fn *Node, a ...*Node) *Node  { return N(KCall, "", append([]*Node{fn}, a...)...) }
-func named(n string, e *Node) *Node    { return N(KArgNamed, n, e) }
-func star(e *Node) *Node               { return N(KArgStar, "", e) }
-func starstar(e *Node) *Node           { return N(KArgStarStar, "", e) }
-func params(p ...*Node) *Node          { return N(KParams, "", p...) }
-func param(n string) *Node             { return N(KParam, n) }
-func popt(n string, d *Node) *Node     { return N(KParamOpt, n, d) }
-func pstar(n string) *Node             { return N(KParamStar, n) }
-func pstarstar(n string) *Node         { return N(KParamStarStar, n) }
-func lambda(ps *Node, b *Node) *Node   { return N(KLambda, "", ps, b) }
-func listcomp(b *Node, cl ...*Node) *Node { return N(KListComp, "", append([]*Node{b}, cl...)...) }
+func cond(t, c, f *Node) *Node              { return N(KCond, "", t, c, f) }
+func index(x, i *Node) *Node                { return N(KIndex, "", x, i) }
+func slice(x, lo, hi *Node) *Node           { return N(KSlice, "", x, lo, hi) }
+func dot(x *Node, a string) *Node           { return N(KDot, a, x) }
+func call(fn *Node, a ...*Node) *Node       { return N(KCall, "", append([]*Node{fn}, a...)...) }
+func named(n string, e *Node) *Node         { return N(KArgNamed, n, e) }
+func star(e *Node) *Node                    { return N(KArgStar, "", e) }
+func starstar(e *Node) *Node                { return N(KArgStarStar, "", e) }
+func params(p ...*Node) *Node               { return N(KParams, "", p...) }
+func param(n string) *Node                  { return N(KParam, n) }
+func popt(n string, d *Node) *Node          { return N(KParamOpt, n, d) }
+func pstar(n string) *Node                  { return N(KParamStar, n) }
+func pstarstar(n string) *Node              { return N(KParamStarStar, n) }
+func lambda(ps *Node, b *Node) *Node        { return N(KLambda, "", ps, b) }
+func listcomp(b *Node, cl ...*Node) *Node   { return N(KListComp, "", append([]*Node{b}, cl...)...) }
 func dictcomp(k, v *Node, cl ...*Node) *Node {
 	return N(KDictComp, "", append([]*Node{entry(k, v)}, cl...)...)
 }
@@ -107,9 +107,9 @@ func cif(c *Node) *Node      { return N(KCompIf, "", c) }
 func paren(x *Node) *Node    { return N(KParen, "", x) }
 func block(s ...*Node) *Node { return N(KBlock, "", s...) }
 
-func exprStmt(e *Node) *Node        { return N(KExprStmt, "", e) }
-func assign(l, r *Node) *Node       { return N(KAssign, "", l, r) }
-func aug(l *Node, op string, r *Node) *Node { return N(KAugAssign, op, l, r) }
+func exprStmt(e *Node) *Node                      { return N(KExprStmt, "", e) }
+func assign(l, r *Node) *Node                     { return N(KAssign, "", l, r) }
+func aug(l *Node, op string, r *Node) *Node       { return N(KAugAssign, op, l, r) }
 func def(name string, ps *Node, body *Node) *Node { return N(KDef, name, ps, body) }
 func ifs(c *Node, t *Node, f *Node) *Node {
 	if f == nil {
